@@ -10,7 +10,7 @@ Oracle: bit arithmetic (Monday 0x02 .. Sunday 0x80), written here without the li
 """
 from itertools import combinations, product
 
-from mc.core import Res
+from mc.core import optimized_job as core_optimized_job, run_optimized as core_run_optimized, Res
 
 ID = "C12"
 LEVEL = "exploration"
@@ -42,7 +42,7 @@ def ref_mask(idx):
 
 
 def jobs(tier, seed):
-    return [{"part": "encode"}, {"part": "decode"}, {"part": "enum"}]
+    return core_optimized_job([{"part": "encode"}, {"part": "decode"}, {"part": "enum"}])
 
 
 def _enc_case(res, form, idx):
@@ -170,6 +170,10 @@ def check_case(case, res):
 
 
 def run_job(job):
+    if job.get("part") == "optimized":
+        r0 = Res()
+        core_run_optimized(ID, job.get("tier", "quick"), r0)
+        return r0
     res = Res()
     if job["part"] == "encode":
         for i in range(7):
@@ -193,6 +197,15 @@ def run_job(job):
     elif job["part"] == "decode":
         for m in list(range(-1, 257)) + [1000]:
             _dec_case(res, m)
+        # consecutive repeats: an answer, then the same refusal twice; every mask twice in a row
+        for bad in (0, 1, 255, 256, -1, 1000):
+            for good in (6, 254, 2):
+                _dec_case(res, good)
+                _dec_case(res, bad)
+                _dec_case(res, bad)
+        for m in range(0, 256):
+            _dec_case(res, m)
+            _dec_case(res, m)
         res.sample({"op": "decode", "mask": 0x8A, "expected": ["MONDAY", "WEDNESDAY", "SUNDAY"]})
     else:
         for i in range(7):
@@ -202,6 +215,10 @@ def run_job(job):
 
 
 def replay(case):
+    if isinstance(case, dict) and case.get("part") == "optimized":
+        r0 = Res()
+        core_run_optimized(ID, case.get("tier", "quick"), r0)
+        return r0.violations
     res = Res()
     check_case(case, res)
     return res.violations
